@@ -1,107 +1,20 @@
-import ShredModel.Model.Builder
-import ShredModel.Model.Plan
-/-! Line-protocol front end of the model (plan engine). One request per line, one answer per line. -/
+import ShredModel.Drv.Plan
+/-!
+Line-protocol front end of the model. One request per line, one answer per line. The first
+word selects the sub-model; anything else goes to the builder / task model.
+Every sub-model lives in `ShredModel/Drv/<Name>.lean` and exposes `St` and
+`step : St → List String → St × String`.
+-/
 open Shred
 
-def hexVal (c : Char) : Nat :=
-  if '0' ≤ c ∧ c ≤ '9' then c.toNat - '0'.toNat
-  else if 'a' ≤ c ∧ c ≤ 'f' then c.toNat - 'a'.toNat + 10
-  else 0
-
-/-- names travel hex-encoded (UTF-8 bytes) so that they may contain anything -/
-def unhex (s : String) : String :=
-  let rec go : List Char → List UInt8
-    | a :: b :: rest => (UInt8.ofNat (hexVal a * 16 + hexVal b)) :: go rest
-    | _ => []
-  if s == "-" then "" else
-  match String.fromUTF8? (ByteArray.mk (go s.toList).toArray) with
-  | some r => r
-  | none => ""
-
-def hexDigit (n : Nat) : Char := if n < 10 then Char.ofNat (n + 48) else Char.ofNat (n - 10 + 97)
-
-def hex (s : String) : String :=
-  if s.isEmpty then "-" else
-  String.ofList (s.toUTF8.toList.flatMap fun b => [hexDigit (b.toNat / 16), hexDigit (b.toNat % 16)])
-
-def parseList (s : String) : List String := if s == "-" then [] else s.splitOn ","
-
-def parseRes (s : String) : List ResId :=
-  (parseList s).filterMap fun x =>
-    match x.splitOn "." with
-    | [a, b] => match a.toNat?, b.toNat? with
-      | some ty, some dyn => some ⟨ty, dyn⟩
-      | _, _ => none
-    | _ => none
-
-def showNested (t : List (List (List Nat))) : String :=
-  "[" ++ ",".intercalate (t.map fun st => "[" ++ ",".intercalate (st.map fun g =>
-    "[" ++ ",".intercalate (g.map toString) ++ "]") ++ "]") ++ "]"
-
-def showPanic : BuildPanic → String
-  | .unknownDep n => s!"panic unknownDep {hex n}"
-  | .duplicateName n => s!"panic duplicateName {hex n}"
-
-/-- driver state: stack of builders (head = innermost batch being filled) and the residual
-task of the trace being validated, if any -/
 structure St where
-  bs : List DispatcherBuilder := [{}]
-  tr : Option (RTask SysTag) := none
+  plan : Drv.Plan.St := {}
 
 def step (st : St) (line : String) : St × String :=
   match line.trimAscii.toString.splitOn " " with
-  | ["new"] => ({}, "ok")
-  | ["sys", tag, name, deps, r, w, t] =>
-    match st.bs, tag.toNat?, t.toNat? with
-    | b :: rest, some tag, some t =>
-      let (b', p) := b.add tag (unhex name) ((parseList deps).map unhex) ⟨parseRes r, parseRes w, t⟩
-      ({ st with bs := b' :: rest }, match p with | none => "placed" | some p => showPanic p)
-    | _, _, _ => (st, "bad-op")
-  | ["barrier"] =>
-    match st.bs with
-    | b :: rest => ({ st with bs := b.addBarrier :: rest }, "ok")
-    | [] => (st, "bad-op")
-  | ["tl", tag, _r, _w] =>
-    match st.bs, tag.toNat? with
-    | b :: rest, some tag => ({ st with bs := b.addThreadLocal tag :: rest }, "ok")
-    | _, _ => (st, "bad-op")
-  | ["batch-begin"] => ({ st with bs := ({} : DispatcherBuilder) :: st.bs }, "ok")
-  | ["batch-end", tag, name, deps, _ctl, r, w, t, _n] =>
-    match st.bs, tag.toNat?, t.toNat? with
-    | inner :: b :: rest, some tag, some t =>
-      let (b', p) := b.addBatch tag (unhex name) ((parseList deps).map unhex) ⟨parseRes r, parseRes w, t⟩ inner
-      ({ st with bs := b' :: rest }, match p with | none => "placed" | some p => showPanic p)
-    | _, _, _ => (st, "bad-op")
-  | ["layout"] =>
-    match st.bs with
-    | b :: _ =>
-      let sb := b.stagesBuilder
-      (st, s!"ids={showNested sb.ids} sys={showNested sb.stages} tl=[{",".intercalate (b.threadLocal.map toString)}] barrier={sb.barrier} maxthreads={b.maxThreads}")
-    | [] => (st, "bad-op")
-  | ["debug"] =>
-    match st.bs with
-    | b :: _ => (st, hex b.writeParSeq)
-    | [] => (st, "bad-op")
-  | ["trace-begin", mode] =>
-    match st.bs with
-    | b :: _ =>
-      let t := if mode == "seq" then dispatchSeqTask b.stagesBuilder.stages b.threadLocal
-               else dispatchTask b.stagesBuilder.stages b.threadLocal
-      ({ st with tr := some t.toR }, "ok")
-    | [] => (st, "bad-op")
-  | ["ev", k, tag] =>
-    match st.tr, tag.toNat? with
-    | some t, some tag =>
-      let e : Ev SysTag := if k == "F" then .F tag else .D tag
-      match t.deriv e with
-      | some t' => ({ st with tr := some t' }, "ok")
-      | none => (st, s!"reject {k} {tag}")
-    | _, _ => (st, "bad-op")
-  | ["trace-end"] =>
-    match st.tr with
-    | some t => ({ st with tr := none }, if t.nullable then "accept" else "reject incomplete")
-    | none => (st, "bad-op")
-  | _ => (st, "bad-op")
+  | ws =>
+    let (s, o) := Drv.Plan.step st.plan ws
+    ({ st with plan := s }, o)
 
 partial def loop (h : IO.FS.Stream) (out : IO.FS.Stream) (st : St) : IO Unit := do
   let line ← h.getLine
